@@ -4,7 +4,7 @@
 From Coq Require Import List Arith Bool.
 Import ListNotations.
 From LCC Require Import Base.Util Model.Proj Model.Sched Model.Fixture Model.TaskSem Model.TaskSemEq
-     Proofs.ProtocolP Proofs.VerdictP Proofs.SchedP.
+     Proofs.ProtocolP Proofs.VerdictP Proofs.SchedP Proofs.TeardownOrderP.
 From LCC Require Model.Report Model.Events Model.Writer Proofs.WriterFilingP.
 
 (* A test that is executed ends with TaskFailure (hence is reported failed, marks its location failed and makes its
@@ -77,3 +77,11 @@ Theorem C02_report_status_from_logs : forall w e w' loc t, apply w e = Ok w' -> 
 Proof. exact status_from_logs. Qed.
 Print Assumptions C02_report_status_from_logs.
 End WriterLevel.
+
+(* teardowns cannot turn a failed test into a passed one: a failure recorded by a setup or by the body is still recorded after
+   every teardown function has run, whatever the teardowns do (Model/TaskSem.v run_teardown_funcs; the flag is what the task
+   result and, through the events, the report status are computed from) *)
+Theorem C02_teardowns_never_clear_a_failure : forall env suite kept r,
+  rs_failed r = true -> rs_failed (run_teardown_funcs env suite kept r) = true.
+Proof. exact teardowns_never_clear_a_failure. Qed.
+Print Assumptions C02_teardowns_never_clear_a_failure.
